@@ -354,7 +354,7 @@ def cmp_model(model, impl):
     if ms == "unsupported":
         return "skip"
     if ms != "ok" or ims != "ok":
-        same = (ms == ims) or (ms == "key" and ims == "key")
+        same = (ms == ims) or (ms == "escapes" and (ims == "key" or ims.startswith("exc:")))
         return None if same else "model status %s, parser status %s %s" % (ms, ims, impl.get("msg", ""))
     kind, num = model["src"]
     if kind in (0, 1, 2) and num != impl["sg_number"]:
